@@ -143,8 +143,14 @@ func capWeight(kind string, e endpoint.Endpoint) endpoint.Endpoint {
 	return e
 }
 
+// hostPool, when set, replaces the numbered universe: the hosts histories draw from.
+var hostPool []string
+
 func drawEP(r *rand.Rand, universe int, wm weightMode) endpoint.Endpoint {
 	host := fmt.Sprintf("10.0.%d.%d", r.Intn(universe)/250, r.Intn(universe)%250+1)
+	if hostPool != nil {
+		host = hostPool[r.Intn(len(hostPool))]
+	}
 	switch wm {
 	case wStaticPos:
 		ws := []int32{1, 1, 2, 3, 5, 10, 50, 99, 100, 101, 250, 1000, 9999, 2147483647}
@@ -730,6 +736,31 @@ func seqChild(seed int64, pick func(q, t int) int) {
 		universe := []int{1, 2, 3, 5, 8, 20, 64}[(i/40)%7]
 		sequentialHistory(r, kind, weighted, wm, universe, 20+r.Intn(180))
 	}
+	// histories over hosts that share a point of the Ketama ring (found by a birthday search over a
+	// fixed universe, independent of the seed): membership must not depend on who else claims a point
+	owner := map[uint32]int{}
+	var pairs [][2]string
+	ch := func(i int) string { return fmt.Sprintf("10.%d.%d.1", i/250, i%250) }
+	for i := 0; i < 3000; i++ {
+		for _, p := range selref.Points(ch(i), 25, true) {
+			if o, ok := owner[p]; ok && o != i {
+				pairs = append(pairs, [2]string{ch(o), ch(i)})
+			} else {
+				owner[p] = i
+			}
+		}
+	}
+	rep.Add("colliding_host_pairs_used", int64(min(len(pairs), pick(6, len(pairs)))))
+	for pi, pr := range pairs {
+		if pi >= pick(6, len(pairs)) {
+			break
+		}
+		hostPool = []string{pr[0], pr[1], "10.200.0.1", "10.200.0.2"}
+		for k := 0; k < pick(30, 400); k++ {
+			sequentialHistory(r, "conhash-ketama", false, wNone, 4, 20+r.Intn(100))
+		}
+	}
+	hostPool = nil
 	// weight vectors
 	vectors := [][]int32{{0}, {0, 0}, {0, 0, 0}, {-1}, {-1, -1}, {-50, -60}, {-100, -1}, {-101}, {-2147483648}, {-2147483648, -2147483648}, {1}, {1, 1}, {1, 2, 3}, {5, 1000}, {99, 9999}, {1, 100}, {1, 101},
 		{10, 20, 30, 40}, {2147483647}, {2147483647, 1}, {2147483647, 2147483647}, {0, 5}, {5, 0, 0}, {-3, 7}, {100, 100, 100}, {3, 3, 3, 3, 3, 3, 3}, {1, 10}, {1, 9}, {1, 11}, {7, 13, 29}, {50, 75, 100}, {1000, 1}}
